@@ -20,7 +20,9 @@
    raised: a transfer the model ends in error -- in particular a stream that ended (EOF on
    a message boundary or inside a message) before the transfer was done -- must come out of
    inbound_xfr as an exception [ErrorReported_<why>], a completed one must not
-   [NoErrorForAppliedTransfer].  Free: refusing a FAULTED stream that the reference would accept
+   [NoErrorForAppliedTransfer]; if inbound_xfr comes back without having finished, been
+   refused or run out of stream (it never connected, say) and without raising, the zone must
+   nevertheless be the server's version [ConvergesOrRaises].  Free: refusing a FAULTED stream that the reference would accept
    (then (i) applies).  With env XFR_STRICT=1 the free choices are pinned to the model and
    the state-machine attributes are compared after every message [StateVars] -- used to
    measure drift, never reported as a violation. *)
@@ -89,9 +91,19 @@ TExit ==
        /\ Check(t, l, "ConvergesToTarget", (Unfaulted /\ Converging) => (~c.err /\ c.done /\ z = script.target))
     /\ Adv
 
+(* inbound_xfr came back although the stream was neither finished nor refused nor exhausted (e.g. it never opened a
+   connection): if it returned normally the zone must be the server's version; if it raised, (i) applies *)
+TAbandon ==
+    /\ e.op = "exit" /\ phase = "idle" /\ ~c.err /\ ~c.done
+    /\ Check(t, l, "StreamAbandoned", HasKey(Log[t], "raised"))
+    /\ Check(t, l, "ConvergesOrRaises", Log[t].raised = "" => LZ(e.zone) = script.target)
+    /\ Check(t, l, "ZoneUnchangedOnError", Log[t].raised # "" => LZ(e.zone) = script.zone0)
+    /\ Check(t, l, "NoTxnLeftOpen", e.open = 0 /\ ~e.wtxn /\ e.usable)
+    /\ phase' = "exited" /\ UNCHANGED <<script, mi, ri, c>> /\ Adv
+
 TraceNext ==
     /\ l <= Len(Ev(t))
-    /\ \/ TInternal \/ TMsg \/ TEof \/ TExit
+    /\ \/ TInternal \/ TMsg \/ TEof \/ TExit \/ TAbandon
 
 Accepted == Accepting(t, l)
 =============================================================================
